@@ -173,6 +173,11 @@ def build_cells(seed: int, doc: dict, hashseeds: list[int], with_hooks: bool, ot
         hist = r.choice([["self"], ["other0"], ["other0", "self"], ["other1", "other0"], ["self", "self"]])
         hist_config = r.choice([None, {"content_type_overrides": CT_OVERRIDES_ALT}, {"content_type_overrides": CT_OVERRIDES_ALT, "literal_enums": True},
                                 {"field_prefix": "attr_", "use_path_prefixes_for_title_model_names": False}])
+        names = sorted(((doc.get("components") or {}).get("schemas") or {}))
+        if names and r.random() < 0.25:
+            # the SAME document was generated earlier in this process under a configuration that renames one of its classes
+            nm = r.choice(names)
+            hist, hist_config = r.choice([["self"], ["other0", "self"]]), {"class_overrides": {nm: {"class_name": nm + "Hist", "module_name": nm.lower() + "_hist"}}}
         cells.append({"id": f"warm{i}", "kind": "warm", "h": h, **skew(), "history": hist, "hooks": "off", "perm": None, "hist_config": hist_config})
     # the output location has a history too: other documents (same title => same package) were generated into the SAME
     # directory before, then D with --overwrite; the tree must equal the one generated into a fresh directory
